@@ -410,12 +410,17 @@ func TestFrameHelpers(t *testing.T) {
 // returns everything delivered, the terminating error and the number of calls
 // that delivered data.
 func drain(t *rapid.T, cr *wsutil.CipherReader, sizes []int, maxCalls int) (got []byte, err error, calls int) {
+	big := 0
+	for _, s := range sizes {
+		big = max(big, s)
+	}
+	space := make([]byte, big)
 	for i := 0; ; i++ {
 		if i > maxCalls {
 			t.Fatalf("CipherReader did not finish within %d Read calls", maxCalls)
 		}
 		bs := sizes[i%len(sizes)]
-		buf := make([]byte, bs)
+		buf := space[:bs:bs]
 		n, e := cr.Read(buf)
 		if n < 0 || n > bs {
 			t.Fatalf("CipherReader.Read returned n=%d for a %d-byte buffer", n, bs)
